@@ -1,7 +1,6 @@
-from copy import copy
 from pyg_base._dictable import dictable
 from pyg_base._as_list import as_list
-from pyg_base._dict import _tree_setitem, dictattr, _tree_types
+from pyg_base._dict import _tree_setitem, dictattr, _tree_types, _tree_copy
 
 
 def _table_to_tree(tree, pattern, d, base, ignore = None, types = None):
@@ -30,7 +29,7 @@ def table_to_tree(tree, pattern, table, base = dictattr, ignore = None, types = 
     types = _tree_types(types)
     ignore = as_list(ignore)
     base = type(tree) if base is None else base
-    tree = base() if tree is None else copy(tree)
+    tree = base() if tree is None else _tree_copy(tree, types) ## the rows are written through the nested branches: a shallow copy shares them with the caller's tree
     if isinstance(table, (dictable, list)):
         for row in table:
             _table_to_tree(tree, pattern, row, base = base, ignore = ignore, types = types)
